@@ -271,6 +271,28 @@ func runGuardedRules(p *Program, id string) ([]*Gen, []string) {
 							}
 						}
 					}
+					if ao := kv["allow-only"]; ao != "" && holds {
+						// `allow-only=A && B`: no branch condition other than these may stand between the function entry
+						// and the site (nothing else may exempt an item from the treatment at the site)
+						for _, fct := range domFacts(in) {
+							if fct.cond == nil {
+								continue
+							}
+							okF := false
+							for _, gd := range splitList(ao, "&&") {
+								if factMatches(fct, gd) {
+									okF = true
+								}
+							}
+							if !okF {
+								pol := "true"
+								if fct.neg {
+									pol = "false"
+								}
+								holds, missing = false, "only the allowed conditions: it also depends on "+pol+":"+valuePath(fct.cond)
+							}
+						}
+					}
 					if !holds {
 						var have []string
 						for _, fct := range domFacts(in) {
